@@ -392,6 +392,14 @@ func c09Gen(r *rand.Rand, tier string) []Case {
 			out = append(out, c)
 		}
 	}
+	// message level: create / merge (both entry points) / clawback / funder-update histories on the real app
+	nm := 60
+	if tier == "thorough" {
+		nm = 1500
+	}
+	for i := 0; i < nm; i++ {
+		out = append(out, vmGenC09(r, 4))
+	}
 	return out
 }
 
@@ -428,9 +436,30 @@ func c09Exec(c Case) (outs []string, fails []Failure, tags []string) {
 	fail := func(i int, sig, what string) {
 		fails = append(fails, Failure{Signature: sig, What: what, Case: c[:i+1]})
 	}
+	env := &vmEnv{}
 	for i, line := range c {
 		f := strings.Fields(line)
 		out := "bad-op"
+		if strings.HasPrefix(f[0], "m") {
+			func() {
+				defer func() {
+					if r := recover(); r != nil {
+						out = "panic:" + strings.ReplaceAll(fmt.Sprint(r), " ", "_")
+					}
+				}()
+				o, ok := vmExec(env, c, i, func(sig, what string) { fail(i, sig, what) }, func(t string) {
+					tags = append(tags, t)
+					if t == "merge" || t == "clawed>0" {
+						tags = append(tags, "nontrivial")
+					}
+				})
+				if ok {
+					out = o
+				}
+			}()
+			outs = append(outs, out)
+			continue
+		}
 		func() {
 			defer func() {
 				if r := recover(); r != nil {
